@@ -1105,7 +1105,7 @@ func c15TokenAssigned(p *Program, r *Report, sm *scanModel) {
 		return
 	}
 	// the token-code result of the returns: follow the merges down to the values that are assigned
-	n := 0
+	n, nChar := 0, 0
 	seen := map[*ssa.Phi]bool{}
 	var walk func(v ssa.Value, from *ssa.BasicBlock)
 	walk = func(v ssa.Value, from *ssa.BasicBlock) {
@@ -1127,6 +1127,15 @@ func c15TokenAssigned(p *Program, r *Report, sm *scanModel) {
 			site = p.Pos(instrPos(from.Instrs[len(from.Instrs)-1]))
 		}
 		r.Check(!zero, "C15.R11", fmt.Sprintf("Scan|token code #%d", n), site, "a token code is assigned", "a path reaches the end of the scanning function with the token code still zero: the parser takes it for the end of input and silently drops the rest of the program")
+		// a character used as its own token code is one of the characters some case names: any other rune would be handed to
+		// the parser as whatever token has that number (NUL is the end marker, U+E002.. are the named tokens)
+		if cv, ok := v.(*ssa.Convert); ok {
+			if bt, ok := cv.X.Type().Underlying().(*types.Basic); ok && bt.Kind() == types.Int32 {
+				nChar++
+				r.Check(underEquality(cv.Block(), cv.X, map[*ssa.BasicBlock]bool{}), "C15.R11", fmt.Sprintf("Scan|character as token code #%d is a listed character", nChar), p.Pos(instrPos(cv)),
+					"reached only under an equality test of the character with a constant", "a character becomes its own token code on a successful path that no `case` naming characters leads to: an arbitrary rune is handed to the parser as the token with that number (a NUL byte is the end-of-input marker: the rest of the text is dropped without an error; U+E002… are IDENT, NUMBER, the keywords)")
+			}
+		}
 	}
 	for _, b := range scan.Blocks {
 		ret, ok := b.Instrs[len(b.Instrs)-1].(*ssa.Return)
@@ -1841,4 +1850,31 @@ func c15CursorPrimitives(p *Program, r *Report) {
 			"a scanning function writes the cursor field itself instead of going through the one-step primitives: newlines it steps over are not counted and the line head is not moved, so positions after it (and of a text parsed after this one) are wrong")
 	}
 	r.Floor("C15.R17", n, 2)
+}
+
+// underEquality: block b is reached only through true edges of `ch == constant` tests (directly, or through blocks that are).
+func underEquality(b *ssa.BasicBlock, ch ssa.Value, seen map[*ssa.BasicBlock]bool) bool {
+	if seen[b] {
+		return true // a cycle adds no new way in
+	}
+	seen[b] = true
+	if len(b.Preds) == 0 {
+		return false
+	}
+	for _, pr := range b.Preds {
+		ok := false
+		if iff, isIf := pr.Instrs[len(pr.Instrs)-1].(*ssa.If); isIf {
+			if bo, isBo := iff.Cond.(*ssa.BinOp); isBo && bo.X == ch {
+				if _, isK := bo.Y.(*ssa.Const); isK {
+					if (bo.Op == token.EQL && pr.Succs[0] == b && pr.Succs[1] != b) || (bo.Op == token.NEQ && pr.Succs[1] == b && pr.Succs[0] != b) {
+						ok = true
+					}
+				}
+			}
+		}
+		if !ok && !underEquality(pr, ch, seen) {
+			return false
+		}
+	}
+	return true
 }
